@@ -28,19 +28,32 @@ SCRATCH="$(mktemp -d /tmp/verif-cov.XXXXXX)"
 cp "$VERIF_DIR/known_findings.json" "$SCRATCH/"
 mkdir -p "$SCRATCH/evidence" "$T/prof"
 rm -f "$T"/prof/*.profraw "$T"/prof/*.discard
+# the FFI call-sequence driver (C18, FFI part of C07) covers the extern "C" surface: instrument it as well
+( cd "$VERIF_DIR/ffi-driver" && [ -f Cargo.lock ] || cp "$VERIF_DIR/harness/Cargo.lock" "$VERIF_DIR/ffi-driver/Cargo.lock" 2>/dev/null
+  LLVM_PROFILE_FILE="$T/prof/build-%p-%m.discard" RUSTFLAGS="-Cinstrument-coverage" cargo +nightly build --release --offline \
+    --manifest-path "$VERIF_DIR/ffi-driver/Cargo.toml" --target-dir "$T/ffi" >"$T.build.log" 2>&1 ) || { echo "ffi-driver coverage build failed"; tail -20 "$T.build.log"; }
+rm -f "$T.build.log" "$T"/prof/*.discard
+if [ -x "$T/ffi/release/ffi-driver" ]; then
+    LLVM_PROFILE_FILE="$T/prof/ffi-%p-%m.profraw" "$T/ffi/release/ffi-driver" --seed "${VERIF_SEED:-1}" --scenarios 4000 2>/dev/null | tail -1 | cut -c1-200
+fi
 for c in "${MONS[@]}"; do
+    SLICE="${COV_SECONDS:-150}"
+    # C07 runs its families one after the other in worker processes: give it time to reach the last one
+    [ "$c" = "C07" ] && SLICE=$((SLICE * 5))
     # %p: one file per process (C07 spawns workers), %m: per binary signature
     # instrumented counters shared by 16 threads make the workloads ~20x slower: each monitor gets a fixed
     # time slice (VERIF_COV_SECONDS, honoured by rio-mon: exit(0) so that the profile is flushed); coverage
     # of /repo saturates within the first seconds (catalogues run first), the evidence of this run is discarded
-    VERIF_COV_SECONDS="${COV_SECONDS:-150}" LLVM_PROFILE_FILE="$T/prof/$c-%p-%m.profraw" "$T/release/rio-mon" "$c" --tier quick --seed "${VERIF_SEED:-1}" \
+    VERIF_COV_SECONDS="$SLICE" LLVM_PROFILE_FILE="$T/prof/$c-%p-%m.profraw" "$T/release/rio-mon" "$c" --tier quick --seed "${VERIF_SEED:-1}" \
         --verif-dir "$SCRATCH" 2>&1 | tail -1
 done
 "$BIN_DIR/llvm-profdata" merge -sparse "$T"/prof/*.profraw -o "$T/prof/all.profdata" || exit 2
 mkdir -p "$VERIF_DIR/coverage"
-"$BIN_DIR/llvm-cov" export "$T/release/rio-mon" -instr-profile="$T/prof/all.profdata" -summary-only \
+OBJS=("$T/release/rio-mon")
+[ -x "$T/ffi/release/ffi-driver" ] && OBJS+=(-object "$T/ffi/release/ffi-driver")
+"$BIN_DIR/llvm-cov" export "${OBJS[@]}" -instr-profile="$T/prof/all.profdata" -summary-only \
     --ignore-filename-regex='(\.cargo|rustc|/verif/)' >"$T/prof/summary.raw.json" || exit 2
-"$BIN_DIR/llvm-cov" show "$T/release/rio-mon" -instr-profile="$T/prof/all.profdata" \
+"$BIN_DIR/llvm-cov" show "${OBJS[@]}" -instr-profile="$T/prof/all.profdata" \
     --ignore-filename-regex='(\.cargo|rustc|/verif/)' -show-line-counts-or-regions=false >"$T/prof/show.txt" || exit 2
 python3 - "$T/prof/summary.raw.json" "$T/prof/show.txt" "$VERIF_DIR/coverage" "${MONS[*]}" <<'EOF'
 import json, sys, re
